@@ -266,6 +266,9 @@ def run_history(prog, style: str, rseed: int, bindings, n_builds: int = 3, colle
         if collect is not None:
             # round 10: the emission of THIS build (other request over the same objects), read from its ModelProto
             # after renaming the caller's names back to in<id> / out<position in this request>
+            import time as _tm
+
+            _t1 = _tm.time()
             try:
                 from harness import lib_request as LR
 
@@ -279,6 +282,7 @@ def run_history(prog, style: str, rseed: int, bindings, n_builds: int = 3, colle
             except Exception as e:  # noqa: BLE001
                 collect.append({"step": step, "kind": kind, "scheme": scheme, "sub": sub, "em": None,
                                 "problems": [f"{type(e).__name__}: {e}"]})
+            collect[-1]["ms"] = (_tm.time() - _t1) * 1000
     return None
 
 
@@ -994,6 +998,7 @@ def _search(ck: core.Check):
                     hf = run_history(prog, style, rseed, bindings, collect=hcol)
                     if not hf:
                         queue_history(prog, hcol, (pi, style, rseed, origin))
+                    stats["round10_history_tie_ms"] += int(sum(h.get("ms", 0) for h in hcol))
                 except Exception as e:  # noqa: BLE001
                     hf = None
                     stats["harness_errors"] += 1
@@ -1423,6 +1428,7 @@ def _search(ck: core.Check):
                 "round10_embeddings_abstract_into_created_checked": stats["embeddings_checked"],
                 "round10_embeddings_where_some_abstract_node_was_never_created": stats["embeddings_with_nodes_never_created"],
                 "round10_needed_nodes_embedded": stats["needed_nodes_embedded"],
+                "round10_history_tie_cost_ms (rename + extraction in the child)": stats["round10_history_tie_ms"],
                 "values_created_inside_callbacks": stats["created_inside_callbacks"],
                 "created_in_callback_emitted_further_out": stats["created_in_callback_emitted_further_out"],
                 "created_outside_emitted_inside_body": stats["created_outside_emitted_inside_body"],
